@@ -61,6 +61,10 @@ BX_CFG = {
                r'std::make_shared\|(std::)?shared_ptr<(_NonArray<)?op_lex_closure>.*': 'mk_lex_closure',
                r'uprefs::ctor\|void \(bindings &, uprefs &\)': 'muprefs_nested', r'uprefs::refd_ids': 'mu_refd_ids',
                r'op_apply::reserve_rendezvous': 'model_reserve_rdv',
+               r'std::make_shared\|(std::)?shared_ptr<(_NonArray<)?op_subx>.*': 'mk_subx',
+               r'std::make_shared\|(std::)?shared_ptr<(_NonArray<)?op_assert>.*': 'mk_assert',
+               r'\(anonymous namespace\)::build_pred': 'build_pred_model',
+               r'tree::cst': 'mtree_cst', r'constant::value': 'mconst_value', r'mpz_class::uval': 'mmpz_uval',
                r'std::make_shared\|(std::)?shared_ptr<(_NonArray<)?stringer_origin>.*': 'mk_sorigin',
                r'std::make_shared\|(std::)?shared_ptr<(_NonArray<)?stringer_lit>.*': 'mk_slit',
                r'std::make_shared\|(std::)?shared_ptr<(_NonArray<)?stringer_op>.*': 'mk_sop',
@@ -82,7 +86,7 @@ def cfg(cases):
 
 import os, sys
 HERE = os.path.dirname(os.path.abspath(__file__))
-ALL_CASES = ['IFELSE', 'ALT', 'SCOPE', 'CAPTURE', 'CLOSE_STAR', 'CLOSE_PLUS', 'OR', 'CAT', 'READ', 'BIND', 'BLOCK', 'FORMAT']
+ALL_CASES = ['IFELSE', 'ALT', 'SCOPE', 'CAPTURE', 'CLOSE_STAR', 'CLOSE_PLUS', 'OR', 'CAT', 'READ', 'BIND', 'BLOCK', 'FORMAT', 'SUBX_EVAL', 'ASSERT']
 LOOPING = {'alt', 'or', 'cat', 'block', 'format'}
 
 
